@@ -670,7 +670,10 @@ Definition isNonBootstrapIdempotent (cur : CState) (cmd : Command) : bool :=
     | None => false
     end
   else if bytes_eqb (k_kind cmd) KindUpdateControllerVoters then
-    list_eqb Voter_eqb (s_controllers cur) (s_controllers (Normalize (set_controllers cur (k_controllers cmd))))
+    (* reflect.DeepEqual(current.Controllers, candidate.Controllers): the candidate is normalized, hence
+       never nil; current.Controllers is nil exactly in ClusterState{} (revision 0), where the test is false *)
+    negb (s_rev cur =? 0)
+    && list_eqb Voter_eqb (s_controllers cur) (s_controllers (Normalize (set_controllers cur (k_controllers cmd))))
   else if bytes_eqb (k_kind cmd) KindReplaceHashSlotTable then
     match k_hashslots cmd with Some t => HTable_eqb (s_hashslots cur) t | None => false end
   else if bytes_eqb (k_kind cmd) KindReplaceScheduledBackupState then
